@@ -198,12 +198,13 @@ def generate(rng, tier):
 
 
 def run_impl(cases):
-    import pydsdl as p
+    import pydsdl as pydsdl_module
     B = S.Builder()
     out = []
     cache = {}
     for case in cases:
         t, hdr, rec, v = case["ty"], case["hdr"], case["rec"], case.get("val")
+        p = S.Api(pydsdl_module, case)  # omits keyword arguments that equal the documented defaults in half of the calls
         key = G.lst([str(t)])
         try:
             schema = cache.get(key) or B.build(t)
